@@ -1,17 +1,13 @@
-// verif-case: property=C01 flavour=da feature=c01 harness=c01::q::rs1_n9_len575 safety_only=0
+// verif-case: property=C01 flavour=da feature=c01 harness=c01::q::rs2_structured_n33 safety_only=0
 // Solver counter-example(s) produced by Kani's concrete playback; replay with
-//   ./check C01 --replay /verif/replay/cases/c01__q__rs1_n9_len575.rs
+//   ./check C01 --replay /verif/replay/cases/c01__q__rs2_structured_n33.rs
 
 // failed check (assertion): assertion failed: r.rank_zero(p) == p - exp
 #[test]
-fn kani_concrete_playback_rs1_n9_len575_4937457118250711624() {
+fn kani_concrete_playback_rs2_structured_n33_1471444449566895171() {
     let concrete_vals: Vec<Vec<u8>> = vec![
-        // 0ul
-        vec![0, 0, 0, 0, 0, 0, 0, 0],
-        // 0ul
-        vec![0, 0, 0, 0, 0, 0, 0, 0],
-        // 0ul
-        vec![0, 0, 0, 0, 0, 0, 0, 0],
+        // 0
+        vec![0],
         // 0ul
         vec![0, 0, 0, 0, 0, 0, 0, 0],
         // 0ul
@@ -27,5 +23,5 @@ fn kani_concrete_playback_rs1_n9_len575_4937457118250711624() {
         // 9223372036854775808ul
         vec![0, 0, 0, 0, 0, 0, 0, 128],
     ];
-    kani::concrete_playback_run(concrete_vals, crate::c01::q::rs1_n9_len575);
+    kani::concrete_playback_run(concrete_vals, crate::c01::q::rs2_structured_n33);
 }
